@@ -75,6 +75,9 @@ type Config struct {
 	// DirTag extracts the tag of a harness directive application; custom (non built-in) directives
 	// on FIELD_DEFINITION are executed around the resolver.
 	SkipDirectives bool
+	// StopAt: response paths of objects at which null propagation stops (the @defer exception: a
+	// failure inside a deferred group nulls the object the group belongs to and goes no further)
+	StopAt map[string]bool
 }
 
 type executor struct {
@@ -289,6 +292,9 @@ func (x *executor) selectionSet(obj *ast.Definition, objKey string, sets []ast.S
 	return out, false
 }
 
+// stopped reports whether the null of the object at path must not propagate (see Config.StopAt).
+func (x *executor) stopped(path string) bool { return x.StopAt != nil && x.StopAt[path] }
+
 func builtinDirective(name string) bool {
 	switch name {
 	case "deprecated", "skip", "include", "specifiedBy", "defer", "goField", "goModel", "goTag", "goEnum", "goExtraField", "oneOf":
@@ -435,7 +441,7 @@ func (x *executor) complete(t *ast.Type, key, path string, sels []ast.SelectionS
 	case ast.Object:
 		v, isNull := x.selectionSet(def, key, sels, path, false)
 		if isNull {
-			return null(), true
+			return null(), !x.stopped(path)
 		}
 		return v, false
 	case ast.Interface, ast.Union:
@@ -444,7 +450,7 @@ func (x *executor) complete(t *ast.Type, key, path string, sels []ast.SelectionS
 		x.res.ThroughAbstract++
 		v, isNull := x.selectionSet(c, key, sels, path, false)
 		if isNull {
-			return null(), true
+			return null(), !x.stopped(path)
 		}
 		return v, false
 	}
@@ -505,4 +511,38 @@ func SameData(a, b *strictjson.Value) bool {
 		}
 	}
 	return true
+}
+
+// SameDataUnordered compares two JSON trees ignoring object key order; numbers numerically.
+func SameDataUnordered(a, b *strictjson.Value) bool {
+	if a == nil || b == nil {
+		return a == b
+	}
+	if a.Kind != b.Kind {
+		return false
+	}
+	switch a.Kind {
+	case strictjson.Array:
+		if len(a.Arr) != len(b.Arr) {
+			return false
+		}
+		for i := range a.Arr {
+			if !SameDataUnordered(a.Arr[i], b.Arr[i]) {
+				return false
+			}
+		}
+		return true
+	case strictjson.Object:
+		if len(a.Keys) != len(b.Keys) {
+			return false
+		}
+		for i, k := range a.Keys {
+			bv := b.Get(k)
+			if bv == nil || !SameDataUnordered(a.Vals[i], bv) {
+				return false
+			}
+		}
+		return true
+	}
+	return SameData(a, b)
 }
